@@ -407,6 +407,40 @@ def _restore_is_verbatim(chk, mod, cls, setstate, serialized):
     chk.ob("C20-R3", f"{short}.{cls}.__setstate__[restore is verbatim]", verdict, detail, mod.loc(setstate))
 
 
+def _written_keys(mod, f):
+    """string keys of the dictionary a to_portable-like function returns: a dict literal, a dict assembled by subscript stores on the
+    returned local, or (by finite evaluation with the module constants) a comprehension"""
+    rets = [n.value for n in walk_no_nested(f) if isinstance(n, ast.Return) and n.value is not None]
+    if len(rets) != 1:
+        raise AnalysisError(f"{f.name}: {len(rets)} return statements")
+    r = rets[0]
+    if isinstance(r, ast.Dict) and all(isinstance(k, ast.Constant) for k in r.keys):
+        return [k.value for k in r.keys]
+    if isinstance(r, ast.Name):
+        keys = [n.targets[0].slice.value for n in walk_no_nested(f) if isinstance(n, ast.Assign) and isinstance(n.targets[0], ast.Subscript)
+                and isinstance(n.targets[0].value, ast.Name) and n.targets[0].value.id == r.id and isinstance(n.targets[0].slice, ast.Constant)]
+        lit = [n.value for n in walk_no_nested(f) if isinstance(n, ast.Assign) and isinstance(n.targets[0], ast.Name) and n.targets[0].id == r.id and isinstance(n.value, ast.Dict)]
+        keys = [k.value for d in lit for k in d.keys if isinstance(k, ast.Constant)] + keys
+        if keys:
+            return keys
+    raise AnalysisError(f"{f.name}: the keys of the returned dictionary are not recognised")
+
+
+def _read_keys(repo, mod, f, pname, depth=2):
+    """constant keys read from the parameter `pname` in f, and in module-level helpers the whole parameter is handed to"""
+    out = {n.slice.value for n in ast.walk(f) if isinstance(n, ast.Subscript) and isinstance(n.value, ast.Name) and n.value.id == pname and isinstance(n.slice, ast.Constant)}
+    out |= {n.args[0].value for n in ast.walk(f) if isinstance(n, ast.Call) and isinstance(n.func, ast.Attribute) and n.func.attr in ("get", "pop")
+            and isinstance(n.func.value, ast.Name) and n.func.value.id == pname and n.args and isinstance(n.args[0], ast.Constant)}
+    if depth:
+        for c in ast.walk(f):
+            if isinstance(c, ast.Call) and isinstance(c.func, ast.Name) and mod.has(c.func.id):
+                g = mod.func(c.func.id)
+                for i, a in enumerate(c.args):
+                    if isinstance(a, ast.Name) and a.id == pname and i < len(params(g)):
+                        out |= _read_keys(repo, mod, g, params(g)[i], depth - 1)
+    return out
+
+
 def rule_r4(chk):
     chk.rule("C20-R4", "portable form: Quantity/Equation tuples agree with from_portable position by position; a field written with "
              "' '.join is read back with .split(' '); joined fields cannot be None; kind code tables are injective; every key the "
@@ -521,15 +555,38 @@ def rule_r4(chk):
     im = chk.repo.mod("irispie.simultaneous._invariants")
     tp, fp = im.func("Invariant.to_portable"), im.func("Invariant.from_portable")
     chk.saw(im, "Invariant.to_portable"); chk.saw(im, "Invariant.from_portable")
-    ret = [n for n in walk_no_nested(tp) if isinstance(n, ast.Return)][0].value
-    written = [literal(k) for k in ret.keys]
-    read = {n.slice.value for n in ast.walk(fp) if isinstance(n, ast.Subscript) and unparse(n.value) == params(fp)[1] and isinstance(n.slice, ast.Constant)}
+    written = _written_keys(im, tp)
+    read = _read_keys(chk.repo, im, fp, params(fp)[1])
     for k in written:
         chk.ob("C20-R4", f"simultaneous._invariants.Invariant.portable[{k}]", k in read, f"key {k!r} written; {'read' if k in read else 'never read'} by from_portable", im.loc(fp))
-    # ** forwarding of flags
+    # ** forwarding of flags: what Flags.to_portable writes, Flags.from_kwargs reads back (finite evaluation of the round trip), and the
+    # chain from_portable -> from_source -> Flags.from_kwargs hands the dictionary on with **
     fl = chk.repo.mod("irispie.simultaneous._flags")
-    fkeys = [literal(k) for k in [n for n in walk_no_nested(fl.func("Flags.to_portable")) if isinstance(n, ast.Return)][0].value.keys]
-    star_calls = [(n, kw) for n in ast.walk(fp) if isinstance(n, ast.Call) for kw in n.keywords if kw.arg is None and unparse(kw.value) == "flags"]
+    from .. import fin as _fin
+    import itertools as _it3
+    ftp, ffk = fl.func("Flags.to_portable"), fl.func("Flags.from_kwargs")
+    chk.saw(fl, "Flags.to_portable"); chk.saw(fl, "Flags.from_kwargs")
+
+    class _Enum(_fin.FinObj):
+        def __getitem__(self, k):
+            return getattr(self, k)
+    fkeys, bad_rt = None, None
+    try:
+        consts = _fin.module_constants(fl)
+        for lin, flat, det in _it3.product((False, True), repeat=3):
+            me = _fin.FinObj(is_linear=lin, is_flat=flat, is_deterministic=det, is_nonlinear=not lin, is_nonflat=not flat, is_stochastic=not det)
+            d = _fin.run_function(ftp, {params(ftp)[0]: me}, None, consts)
+            fkeys = list(d)
+            back = _fin.run_function(ffk, {params(ffk)[0]: _Enum(DEFAULT=0, LINEAR=1, FLAT=2, DETERMINISTIC=4), ffk.args.kwarg.arg: dict(d)}, None, consts)
+            if back != lin * 1 + flat * 2 + det * 4 and bad_rt is None:
+                bad_rt = f"flags linear={lin}, flat={flat}, deterministic={det} are written as {d} and read back as bits {back} (LINEAR=1, FLAT=2, DETERMINISTIC=4)"
+        chk.ob("C20-R4", "simultaneous._flags.Flags[portable round trip]", bad_rt is None, bad_rt or f"all 8 flag combinations survive to_portable -> from_kwargs (keys {fkeys})",
+               fl.loc(ftp), sure=True)
+    except (_fin.NotFinite, _fin.Raised, TypeError, AttributeError, KeyError) as ex:
+        chk.undecided("C20-R4", "simultaneous._flags.Flags[portable round trip]", f"not finitely evaluable: {type(ex).__name__}: {ex}", fl.loc(ftp))
+    fkeys = fkeys or []
+    fp_all = [fp] + [im.func(c.func.id) for c in ast.walk(fp) if isinstance(c, ast.Call) and isinstance(c.func, ast.Name) and im.has(c.func.id)]
+    star_calls = [(n, kw) for g_ in fp_all for n in ast.walk(g_) if isinstance(n, ast.Call) for kw in n.keywords if kw.arg is None and unparse(kw.value) == "flags"]
     if not star_calls:
         chk.bad("C20-R4", "simultaneous._invariants.Invariant.from_portable[flags]", "flags are read from the portable but forwarded nowhere", im.loc(fp))
     for call, kw in star_calls:
@@ -546,8 +603,7 @@ def rule_r4(chk):
             accepted |= {n.args[0].value for n in ast.walk(target) if isinstance(n, ast.Call) and unparse(n.func) == "kwargs.get" and n.args and isinstance(n.args[0], ast.Constant)}
             # kwargs forwarded on to Flags.from_kwargs
             if any(isinstance(n, ast.Call) and unparse(n.func).endswith("Flags.from_kwargs") and any(k.arg is None for k in n.keywords) for n in ast.walk(target)):
-                fk = fl.func("Flags.from_kwargs")
-                accepted |= {n.args[0].value for n in ast.walk(fk) if isinstance(n, ast.Call) and unparse(n.func) == "kwargs.get" and n.args and isinstance(n.args[0], ast.Constant)}
+                accepted |= set(fkeys)          # handed on with ** to Flags.from_kwargs, whose reading of these keys is decided by the round trip above
         dropped = [k for k in fkeys if k not in accepted]
         chk.ob("C20-R4", f"simultaneous._invariants.Invariant.from_portable[flags -> {callee}]", not dropped,
                f"flags keys {fkeys} forwarded with ** to {callee}, which accepts {sorted(accepted)[:12]}" if not dropped else
@@ -586,9 +642,8 @@ def rule_r4(chk):
     # model level
     sm = chk.repo.mod("irispie.simultaneous.main")
     tp, fp = sm.func("Simultaneous.to_portable"), sm.func("Simultaneous.from_portable")
-    ret = [n for n in walk_no_nested(tp) if isinstance(n, ast.Return)][0].value
-    written = [literal(k) for k in ret.keys]
-    read = {n.slice.value for n in ast.walk(fp) if isinstance(n, ast.Subscript) and unparse(n.value) == params(fp)[1] and isinstance(n.slice, ast.Constant)}
+    written = _written_keys(sm, tp)
+    read = _read_keys(chk.repo, sm, fp, params(fp)[1])
     for k in written:
         chk.ob("C20-R4", f"simultaneous.main.Simultaneous.portable[{k}]", k in read, f"key {k!r} {'read' if k in read else 'never read'}", sm.loc(fp))
     # the portable form is meant for JSON (to_portable_file): tuples come back as lists. The variant values are written as
